@@ -83,6 +83,13 @@ def main(argv=None):
     try:
         level, coverage, assumptions = mod.run(args.tier, args.seed, verdict)
     except core.MachineryError as exc:
+        if any(k not in verdict.open for k in verdict.violations):
+            # a vacuity / truncation guard fired AFTER violations had been recorded: the violations explain it and are
+            # what has to be reported (exit 1), not the guard (exit 2)
+            verdict.note("run cut short by a machinery guard after violations were found: %s" % exc)
+            return verdict.finish("model_checking", {"states": 0, "transitions": 0, "traces_validated_against_impl": 0,
+                                                     "samples": [{"note": "run cut short, see notes"}],
+                                                     "exhaustive": False, "aborted": str(exc)}, [])
         print("MACHINERY-FAILURE %s: %s" % (args.prop, exc))
         return 2
     except Exception:  # noqa
